@@ -77,7 +77,10 @@ func keyedDiags(dir, root string, results map[string]*run.PkgResult, roots []*pa
 				}
 			}
 			text := lineOf(d.File, d.Line)
-			if m := tagRe.FindStringSubmatch(text); m != nil {
+			if m := probeRe.FindStringSubmatch(text); m != nil {
+				// probe statements are labelled by (declaring package, type, index): drop the program's root
+				set[pk+"|"+d.Code+"|@"+strings.TrimPrefix(m[1], "exp/"+root+"/")+":"+m[2]] = true
+			} else if m := tagRe.FindStringSubmatch(text); m != nil {
 				set[pk+"|"+d.Code+"|#"+m[1]] = true
 			} else {
 				set[pk+"|"+d.Code+"|"+localRe.ReplaceAllString(strings.TrimSpace(text), "$1")] = true
